@@ -676,6 +676,124 @@ def unit_replay_lemma(sess, ctx):
 
 
 # ---------------------------------------------------------------------------
+# what every layer inherits from _AudioReadingProxy
+
+def unit_proxy(sess, ctx):
+    """Every wrapper layer (_AudioReadingProxy itself, _Recorder, _Limiter, _FixedSizeAudioReader, _OverlapAudioReader)
+    and an AudioReader on top of a layer: is_open()/open()/close() reach the wrapped object exactly once and change nothing
+    else; the audio parameters in all six spellings are the wrapped object's; `data` of a non-recording layer is an
+    AttributeError unless the layer forwards unknown attributes (then it is the wrapped object's); read(size) of the bare
+    proxy is the wrapped read; max_read / hop_size / hop_dur / rewindable of the layers that define them."""
+    u = Unit("_AudioReadingProxy forwarding through every layer",
+             [QU + "_AudioReadingProxy." + x for x in ("is_open", "open", "close", "read", "data", "rewindable", "__getattr__")] +
+             [QU + "_Recorder.rewindable", QU + "_Limiter.max_read", QU + "_OverlapAudioReader.hop_size",
+              QU + "_OverlapAudioReader.hop_dur"])
+    eng = setup(sess, [QU + "AudioReader.__getattr__", QU + "AudioReader.rewindable", QU + "_AudioReadingProxy.data",
+                       QU + "_AudioReadingProxy.rewindable", QU + "_Recorder.rewindable", QU + "_Limiter.max_read",
+                       QU + "_OverlapAudioReader.hop_size", QU + "_OverlapAudioReader.hop_dur",
+                       QU + "_FixedSizeAudioReader.block_size"])
+    layers = ["_AudioReadingProxy", "_Recorder", "_Limiter", "_FixedSizeAudioReader", "_OverlapAudioReader"]
+    ops = ["is_open", "open", "close", "param", "data", "read", "misc"]
+    names = ["sampling_rate", "sr", "sample_width", "sw", "channels", "ch"]
+    PP = ("C10", "C05", "C09")
+
+    def run_(eng):
+        v = IV(eng)
+        gh = eng.st.ghost
+        inner = inner_obj(eng, v)
+        calls = gh.setdefault("calls", [])
+        for nm_ in ("is_open", "open", "close"):
+            def wrap(e, o, a, k, _f=eng.iface[("IAudioSource", nm_)], _n=nm_):
+                calls.append((_n, tuple(a), dict(k)))
+                return _f(e, o, a, k)
+            eng.iface[("IAudioSource", nm_)] = wrap
+        layer = layers[eng.choose(5, None, "layer")]
+        mr = Fl(Real("max_read"))
+        hs = Int("hop_size")
+        flds = {"_audio_source": inner}
+        if layer == "_Recorder":
+            flds.update({"_cache": cache_val(Int("nblocks"), fresh_seq("bytes", "cat"), new_aid()), "_read_from_cache": False,
+                         "_data": None, "_read_block": None})
+        elif layer == "_Limiter":
+            flds.update({"_max_read": mr, "_max_samples": Int("ms"), "_bytes_per_sample": v.bps, "_read_samples": v.pos})
+        elif layer == "_FixedSizeAudioReader":
+            flds.update({"_block_size": Int("bs")})
+        elif layer == "_OverlapAudioReader":
+            flds.update({"_block_size": Int("bs"), "_hop_size": hs, "_blocks": Opq(tag="generator")})
+        me = eng.st.new_obj(layer, flds)
+        top = me
+        if eng.choose(2, None, "accessed directly / through an AudioReader on top") == 1:
+            if layer in ("_AudioReadingProxy", "_Recorder", "_Limiter"):
+                raise PathEnd()         # an AudioReader's direct child is always a framing layer
+            top = eng.st.new_obj("AudioReader", {"_audio_source": me, "_record": False})
+        op = ops[eng.choose(len(ops), None, "operation")]
+        open0, pos0 = v.open, v.pos
+        where = "C10:proxy[%s%s]" % (layer, "" if top is me else "<-AudioReader")
+        if op in ("is_open", "open", "close"):
+            r = eng.call_value(eng.getattr(top, op), [], {})
+            eng.prove(where + ":%s()-reaches-the-wrapped-source-exactly-once" % op, calls == [(op, (), {})], props=PP + ("C18",))
+            if op == "is_open":
+                eng.prove(where + ":is_open()-is-the-wrapped-source's-answer", r is open0 or (z3.is_expr(r) and z3.eq(r, open0)), props=PP)
+            eng.prove(where + ":%s()-does-not-move-the-source" % op, z3.is_true(z3.simplify(v.pos == pos0)) and len(v.reads) == 0
+                      and v.rewinds == 0, props=PP)
+            return None
+        if op == "param":
+            exp = {"sampling_rate": v.sr, "sr": v.sr, "sample_width": v.sw, "sw": v.sw, "channels": v.ch, "ch": v.ch}
+            nm = names[eng.choose(6, None, "spelling")]
+            r = eng.getattr(top, nm)
+            eng.prove(where + ":%s-is-the-wrapped-source's" % nm, is_int(r) and z3.is_true(z3.simplify(I(r) == exp[nm])), props=PP)
+            eng.prove(where + ":%s-touches-nothing" % nm, not calls and not v.reads, props=PP)
+            return None
+        if op == "data":
+            if top is not me or layer in ("_Recorder", "_Limiter"):
+                raise PathEnd()         # AudioReader hiding: unit audioreader; recorder / limiter data: their own units
+            inner_has = eng.choose(2, None, "wrapped object has recorded data?") == 0
+            rec = fresh_seq("bytes", "recorded")
+            if inner_has:
+                eng.st.heap[inner.oid]["data"] = rec
+            try:
+                r = eng.getattr(me, "data")
+            except PyRaise as e:
+                eng.prove(where + ":data-of-a-non-recording-chain-is-an-AttributeError",
+                          e.exc == "AttributeError" and (layer == "_AudioReadingProxy" or not inner_has), props=("C19", "C10"))
+                return None
+            eng.prove(where + ":data-is-the-wrapped-recording", inner_has and r is rec, props=("C19", "C10"))
+            return None
+        if op == "read":
+            if layer != "_AudioReadingProxy" or top is not me:
+                raise PathEnd()         # every other layer overrides read: their own units
+            size = Int("size")
+            try:
+                r = eng.call_value(eng.getattr(me, "read"), [size], {})
+            except PyRaise as e:
+                eng.prove(where + ":read-error-only-when-not-open", e.exc == "AudioIOError", props=PP)
+                return None
+            eng.prove(where + ":read(size)-is-one-wrapped-read(size)", len(v.reads) == 1 and v.reads[0] is size, props=PP)
+            rem = v.N - pos0
+            prove_next_chunk(eng, v, r, pos0, If(size < 0, rem, If(size < rem, size, rem)), where + ":read", PP)
+            return None
+        # misc: the small properties / predicates the layers define themselves
+        if top is not me:
+            raise PathEnd()
+        if layer == "_Limiter":
+            r = eng.getattr(me, "max_read")
+            eng.prove(where + ":max_read-is-the-limit-given", r is mr, props=("C10",))
+        elif layer == "_OverlapAudioReader":
+            r1 = eng.getattr(me, "hop_size")
+            r2 = eng.getattr(me, "hop_dur")
+            eng.prove(where + ":hop_size-property", is_int(r1) and z3.is_true(z3.simplify(I(r1) == hs)), props=("C10",))
+            eng.prove(where + ":hop_dur-is-hop_size/rate", (r2.t == eng.spec_div(hs, v.sr)) if isinstance(r2, Fl) else False, props=("C10",))
+        elif layer == "_Recorder":
+            r = eng.call_value(eng.getattr(me, "rewindable"), [], {})
+            eng.prove(where + ":recorder-is-rewindable", r is True, props=("C19",))
+        else:
+            raise PathEnd()
+        return None
+    sess.run_unit(u, eng, run_)
+    return u
+
+
+# ---------------------------------------------------------------------------
 # AudioReader
 
 def unit_audioreader(sess, ctx):
@@ -821,4 +939,5 @@ UNITS = {
     "recorder": lambda sess, ctx, opts: unit_recorder(sess, ctx),
     "replay_lemma": lambda sess, ctx, opts: unit_replay_lemma(sess, ctx),
     "audioreader": lambda sess, ctx, opts: unit_audioreader(sess, ctx),
+    "proxy": lambda sess, ctx, opts: unit_proxy(sess, ctx),
 }
